@@ -62,9 +62,8 @@ def gen_cases(ctx, forest, ntrees, per_tree):
             elif r2 < 0.36:
                 roots = [b"missing_root", nm]
             post = rng.random() < 0.4
-            # known finding (C03 H-rootlink-depth): -H, -depth and a starting point that is a link to a directory
-            if post and mode == "H" and any(x == b"rl_dir" for x in roots):
-                post = False
+            # (-H, -depth and a starting point that is a link to a directory used to be excluded here: the former known finding
+            # H-rootlink-depth, repaired by 0b78d01)
             cases.append(dict(treekey=(ctx.seed, k), roots=roots, mode=mode, mind=mind, maxd=maxd, post=post, post_late=rng.choice([None, None, "-depth"]), prune=None))
     return cases
 
